@@ -91,13 +91,17 @@ def ext_length_rule(f, rep, rid):
     serialize_data() returned it (the padding is not part of the recorded length)."""
     from ..absint import AbsInt, short_vn
     rep.rule(rid, 'serialize_extensions: the length field of every extension header is len() of the unmodified serialize_data() payload')
-    path = 'meta::header::Qcow2Header::serialize_extensions'
-    b = f.body(path)
-    if b is None:
-        raise AnalysisError('serialize_extensions not found')
     hn = [a for a in f.adts if a.endswith('Qcow2HeaderExtensionHeader')]
     if len(hn) != 1:
         raise AnalysisError('Qcow2HeaderExtensionHeader not found')
+    # the routine that serialises the extensions: builds extension headers from serialize_data() payloads
+    cands = [x for x in f.body_list if '::tests::' not in x.path and not x.is_coroutine and
+             any((t.get('fn') or '').endswith('::serialize_data') for _bi, t in x.calls()) and
+             any(s_['k'] == 'assign' and s_['rv']['k'] == 'agg' and s_['rv'].get('p') == hn[0] for bl in x.blocks for s_ in bl['st'])]
+    if len(cands) != 1:
+        raise AnalysisError('the routine that serialises header extensions was not found (%d candidates)' % len(cands))
+    b = cands[0]
+    path = b.path
     fl = [x['n'] for x in f.adts[hn[0]]['variants'][0]['fields']]
     li = fl.index('length')
     ai = AbsInt(f)
